@@ -6,3 +6,13 @@ n = 0
 for f in sorted(glob.glob('/verif/evidence/C*.json')):
     jsonschema.validate(json.load(open(f)), es); n += 1
 print('manifest valid; %d evidence files valid' % n)
+m = json.load(open('/verif/MANIFEST.json'))
+bad = 0
+for c in m.get('checks', []):
+    ev = json.load(open(c['evidence_file'] if c['evidence_file'].startswith('/') else '/verif/' + c['evidence_file']))
+    cat = c['level_claimed']['category']
+    if ev['level'] != cat:
+        print('LEVEL MISMATCH', c['property_id'], 'manifest', cat, 'evidence', ev['level']); bad += 1
+    if cat == 'proof' and ev['coverage'].get('obligations') != ev['coverage'].get('discharged'):
+        print('PROOF WITH UNDISCHARGED', c['property_id']); bad += 1
+print('level consistency: %d problem(s)' % bad)
